@@ -762,6 +762,9 @@ func redisFaults(c *Ctx) {
 		var hist []string
 		for i := 0; i < 6+c.rng.Intn(8); i++ {
 			e := eqPool[c.rng.Intn(3)]
+			if round%2 == 0 {
+				e = eqPool[0] // a single distinct element: the estimate is exact, every doubled update shows
+			}
 			n := uint64(1 + c.rng.Intn(9))
 			fault := c.rng.Intn(3) == 0
 			if fault {
